@@ -311,15 +311,22 @@ class Executor:
             return
 
         # All checks passed: no need to run the step, just simulate the products.
-        await self._skip(run, step_hash)
         async with self.db:
-            # If output hashes changed fortuitously,
-            # e.g. the user restored them to the expected state,
-            # we still want to record the new hash.
-            self.workflow.update_file_hashes(new_out_hashes, cause=HashUpdateCause.SUCCEEDED)
-            step.mark_completed(new_hash, False)
-            # Do not call `scheduler.record_run_stopped`, as no start time was recorded either.
+            overtaken = self._inputs_overtaken(step, inp_hashes)
+            if overtaken:
+                # An input was rebuilt or confirmed anew while this step was being checked.
+                # Keep the hash and check again: the new check sees the new input hashes.
+                step.set_state(StepState.PENDING)
+            else:
+                # If output hashes changed fortuitously,
+                # e.g. the user restored them to the expected state,
+                # we still want to record the new hash.
+                self.workflow.update_file_hashes(new_out_hashes, cause=HashUpdateCause.SUCCEEDED)
+                step.mark_completed(new_hash, False)
+                # Do not call `scheduler.record_run_stopped`, as no start time was recorded either.
         self._report_step_counts()
+        if not overtaken:
+            await self._skip(run, step_hash)
 
     async def execute_job(
         self, job_i: int, step: Step, inp_hashes: Mapping[str, FileHash], env_deps: list[str]
@@ -382,6 +389,25 @@ class Executor:
     #
     # Job function helper methods
     #
+
+    @staticmethod
+    def _inputs_overtaken(step: Step, start_hashes: Mapping[str, FileHash]) -> bool:
+        """Whether the record of an input was replaced since the hashes of the job were collected.
+
+        `Workflow.mark_step_pending` skips a CHECKING step,
+        so nothing else reacts when an input of a step is rebuilt (its producer was executed again),
+        confirmed anew or withdrawn while the step is being checked.
+        Must be called inside the transaction that records the skip.
+        """
+        records = list(step.inp_paths())
+        if len(records) != len(start_hashes):
+            return True
+        for rec in records:
+            if rec.state not in (FileState.BUILT, FileState.CONFIRMED):
+                return True
+            if start_hashes.get(rec.path) != rec.hash:
+                return True
+        return False
 
     def _flag_inputs_not_final(self, run: Run, start_hashes: Mapping[str, FileHash]) -> None:
         """Flag inputs whose recorded hash was replaced while the command was running.
